@@ -16,6 +16,7 @@ import (
 	"sync"
 	"sync/atomic"
 	"testing"
+	"time"
 
 	"github.com/vicanso/pike/cache"
 	"pgregory.net/rapid"
@@ -28,15 +29,23 @@ type c01Burst struct {
 	Workers int `json:"workers"` // concurrent requests per burst
 	Rounds  int `json:"rounds"`  // cold keys, one burst each
 	Spin    int `json:"spin"`    // busy iterations before the lookup, staggered per worker
+	HoldMs  int `json:"holdMs,omitempty"` // how long the elected fetcher takes before it stores the response
 }
 
 func genC01Burst(t *rapid.T) c01Burst {
-	return c01Burst{
+	sc := c01Burst{
 		Size:    rapid.SampledFrom([]int{0, 1000, 51200}).Draw(t, "size"),
 		Workers: rapid.IntRange(2, 32).Draw(t, "workers"),
 		Rounds:  rapid.IntRange(100, 400).Draw(t, "rounds"),
 		Spin:    rapid.IntRange(0, 200).Draw(t, "spin"),
 	}
+	if rapid.IntRange(0, 3).Draw(t, "large") == 0 {
+		// a large burst behind a fetch that takes a while: "any number of concurrent requests"
+		sc.Workers = rapid.SampledFrom([]int{130, 200, 300, 600}).Draw(t, "manyWorkers")
+		sc.HoldMs = rapid.SampledFrom([]int{10, 30}).Draw(t, "holdMs")
+		sc.Rounds = rapid.IntRange(5, 20).Draw(t, "fewRounds")
+	}
+	return sc
 }
 
 var c01BurstSeq int64
@@ -70,6 +79,9 @@ func execC01Burst(sc c01Burst) *vstat.Outcome {
 				case cache.StatusFetching:
 					atomic.AddInt64(&fetchers, 1)
 					runtime.Gosched()
+					if sc.HoldMs > 0 {
+						time.Sleep(time.Duration(sc.HoldMs) * time.Millisecond)
+					}
 					r, _ := cache.NewHTTPResponse(200, http.Header{"Content-Type": []string{"text/plain"}}, "", []byte("body of "+key))
 					hc.Cacheable(r, 60)
 				case cache.StatusHit:
